@@ -87,6 +87,9 @@ func (c *cloner) Expr(e ast.Expr) ast.Expr {
 					if c.at.IsValid() {
 						sub.at = c.at
 					}
+					if _, isLit := ast.Unparen(rep).(*ast.FuncLit); isLit {
+						sub.at = token.NoPos // the body of a callback keeps its own positions
+					}
 					out := sub.Expr(rep)
 					if needsParen(out) {
 						p := &ast.ParenExpr{Lparen: sub.at, X: out, Rparen: sub.at}
